@@ -213,7 +213,31 @@ func genSeg(r *rand.Rand, used map[string]bool, prof *profile, last bool) gSeg {
 		return gSeg{inst: constInst("")}
 	default: // ill-formed shapes
 		b := freshBind(r, used)
-		switch r.Intn(4) {
+		switch r.Intn(6) {
+		case 4, 5:
+			// the anonymous bind `{**}` NEXT TO something else in its segment: not a match-all (that is `{**}` alone),
+			// an ordinary bind named `**` that captures one segment's text between the literals
+			lit := pick(r, []string{".css", "-x", ".", "v"})
+			elems := []gElem{{kind: 'b', text: "**"}, {kind: 'i', text: lit}}
+			if r.Intn(3) == 0 {
+				elems = []gElem{{kind: 'i', text: lit}, {kind: 'b', text: "**"}}
+			} else if r.Intn(3) == 0 {
+				elems = append(elems, gElem{kind: 'b', text: b})
+			}
+			return gSeg{elems: elems, inst: func(r *rand.Rand) []string {
+				v := pick(r, holeVals)
+				switch r.Intn(5) {
+				case 0:
+					return []string{v + ".js"}
+				case 1:
+					return []string{pick(r, holeVals), v + lit}
+				case 2:
+					return []string{lit + v + lit}
+				case 3:
+					return []string{lit + v}
+				}
+				return []string{v + lit}
+			}}
 		case 0: // non-** literal value
 			return gSeg{elems: []gElem{{kind: 'p', params: []gParam{{b, false, "lit"}}}}, inst: constInst("lit")}
 		case 1: // match-all not alone in its segment
